@@ -20,7 +20,7 @@ type FuncCFG struct {
 	fn       *ssa.Function
 	rpo      []*ssa.BasicBlock
 	rpoIndex map[*ssa.BasicBlock]int
-	loops    []*Loop                  // all loops, by ordinal
+	loops    []*Loop                   // all loops, by ordinal
 	headerOf map[*ssa.BasicBlock]*Loop // header block -> loop
 	inner    map[*ssa.BasicBlock]*Loop // innermost loop containing block (nil = none)
 }
